@@ -67,10 +67,10 @@ def plan(tier):
         me.update({m: 200 for m in RIGID})
         me["knn_query"] = 1500
         return dict(n_cases=260, shards=3, classes=CLASSES, timeout_s=600, min_evals=me)
-    me = {m: 9000 for m in DIRECT}
-    me.update({m: 4400 for m in RIGID})
-    me["knn_query"] = 36000
-    return dict(n_cases=5200, shards=14, classes=CLASSES, timeout_s=3000, min_evals=me)
+    me = {m: 7000 for m in DIRECT}
+    me.update({m: 3500 for m in RIGID})
+    me["knn_query"] = 27000
+    return dict(n_cases=4160, shards=16, classes=CLASSES, timeout_s=3000, min_evals=me)
 
 
 # ---- judging a returned table against the brute-force reference ------------------------------------
@@ -186,6 +186,8 @@ def _post_stats(ctx, A, ref, result):
     ctx.extra["queries_judged"] = ctx.extra.get("queries_judged", 0) + len(ref["queries"])
     if any(v < int(A["nn_number"]) for v in ref["avail"].values()):
         ctx.extra["calls_with_k_gt_available"] = ctx.extra.get("calls_with_k_gt_available", 0) + 1
+    if ref["min_rel_gap"] < 1e-5:               # a decision between two candidates closer than 1e-5 relative was judged
+        ctx.extra["calls_with_relative_distance_gap_below_1e-5"] = ctx.extra.get("calls_with_relative_distance_gap_below_1e-5", 0) + 1
     if A["motl_a"] is A["motl_nn"]:
         ctx.extra["calls_with_same_object_twice"] = ctx.extra.get("calls_with_same_object_twice", 0) + 1
 
@@ -243,6 +245,8 @@ def setup(ctx):
     f_stats = monitors.wrap(ctx, nnana, "get_nn_stats", "nn_rows", _post_stats, _app_stats, _snap_stats)
     f_knn = monitors.wrap(ctx, nnana, "get_feature_nn_indices", "knn_query", _post_knn, _app_knn, _snap_knn)
     ctx.declare(*(DIRECT + RIGID))
+    ctx.notes.append("named branch get_nn_distances.empty_subset_skip cannot be reached through lists with a shared tomogram (the subset of a "
+                     "shared tomogram is never empty); path_argument_a is reached once by extra() (documented str argument, raises TypeError, not judged)")
     monitors.trace(ctx, [
         ("nnana.get_nn_stats", f_stats),
         ("nnana.get_nn_distances", nnana.get_nn_distances,
@@ -463,9 +467,11 @@ def gen(ctx, i, cls):
         same_object = bool(rng.random() < 0.5)
     # ---- distance ties / near ties are outside the quantifier: regenerate (jitter list b, or both when coincident)
     unresolved = False
+    min_gap = None
     if shared:
         for attempt in range(40):
             ref = orc.reference(dfa, dfb, 5, pixel, tie_rel=GEN_TIE)
+            min_gap = ref["min_rel_gap"]
             if not ref["ties"]:
                 break
             if coincident:
@@ -503,6 +509,7 @@ def gen(ctx, i, cls):
             "n_shared": len(shared), "k": k, "pixel": pixel,
             "pos": pos_kind, "ori": [ori_a, ori_b], "ids": [id_a, id_b], "index": [idx_a, idx_b], "motions": [mkinds[t] for t in sorted(mkinds)],
             "same_object": same_object, "call": call_style,
+            "min_rel_gap": (float("%.2g" % min_gap) if min_gap is not None and np.isfinite(min_gap) else None),
             "a0": {c: float(dfa[c].iloc[0]) for c in ("subtomo_id", "tomo_id", "x", "shift_x", "phi", "theta", "psi")},
             "b0": {c: float(dfb[c].iloc[0]) for c in ("subtomo_id", "tomo_id", "x", "shift_x", "phi", "theta", "psi")}}
     return {"i": i, "cls": cls, "dfa": dfa, "dfb": dfb, "dfa2": dfa2, "dfb2": dfb2, "k": k, "pixel": pixel, "shared": shared,
